@@ -26,6 +26,7 @@ DEFS = {
     'fits': 'lambda sz, al: sz <= old(top) - old(limit) and start(sz, al) >= old(limit)',
     'unchanged_static': 'd.parena == old(d.parena) and d.narena == old(d.narena) and u64(d.arena) == old(u64(d.arena))'
                         ' and d.threadlock == old(d.threadlock)',
+    'raw_same_from': 'lambda lo: forall(lambda a: implies(a % 8 == 0 and a >= lo, raw64(a) == old(raw64(a))))',
     'raw_same_outside': 'lambda lo, hi: forall(lambda a: implies(a % 8 == 0 and (a < lo or a >= hi), raw64(a) == old(raw64(a))))',
 }
 
@@ -167,5 +168,36 @@ CONTRACTS = {
             'wf': 'implies(not tl, WF)',
         },
         'no_error': True,
+    },
+
+    # ---- client lemmas (shims/c19_client.c): verified against the contracts above -------------
+    'c19_client': {
+        'requires': {'wf': 'WF and not tl', 'al': 'is_pow2(al)'},
+        'assigns': ['d.pstack', 'd.pbase', 'd.maxuse_stack', 'd.maxuse_arena', 'RAW'],
+        'ensures': {
+            'restores_stack_pointer': 'd.pstack == old(d.pstack)',
+            'restores_stack_base': 'd.pbase == old(d.pbase)',
+            'live_blocks_untouched': 'raw_same_from(old(top))',
+            'frame': 'unchanged_static',
+            'wf': 'WF',
+        },
+        'loops': {0: {'invariant': {
+            'wf': 'WF and not tl and unchanged_static',
+            'i': '0 <= i',
+            'frame_is_mine': 'd.pbase != 0 and pmod(d.pbase, 8) == 0 and top <= d.pbase and d.pbase + 24 <= old(top)',
+            'saved_base': 'raw64(d.pbase) == old(d.pbase)',
+            'saved_top': 'raw64(d.pbase + 8) == old(top)',
+            'above_untouched': 'raw_same_from(old(top))',
+        }}},
+    },
+    'c19_nested': {
+        'requires': {'wf': 'WF and not tl', 'al': 'is_pow2(al) and is_pow2(a1)'},
+        'assigns': ['d.pstack', 'd.pbase', 'd.maxuse_stack', 'd.maxuse_arena', 'RAW'],
+        'ensures': {
+            'restores_stack_pointer': 'd.pstack == old(d.pstack)',
+            'restores_stack_base': 'd.pbase == old(d.pbase)',
+            'live_blocks_untouched': 'raw_same_from(old(top))',
+            'wf': 'WF',
+        },
     },
 }
